@@ -1,7 +1,17 @@
 (* C04 — resolution is log-spaced and monotone; averaging honours the overlap (statements only) *)
 From Coq Require Import ZArith List Reals.
-From SK Require Import Arith Sched SchedThms SchedThms2.
+From SK Require Import Arith Sched SchedThms SchedThms2 SchedMono.
 Import ListNotations.
+
+(* along every iterative LTF/LPSD plan (any admissible configuration, logfact > 0, x**0.5 the real square root):
+   the segment length never increases and the number of averages never decreases with frequency *)
+Theorem C04_plan_monotone : forall fuel (c : cfg RA), admissible c -> (0 < clogfact c)%R -> forall fi bs, (0 < fi)%R ->
+  ltf_loop RA sqrt_oracle fuel c fi = Ok bs -> plan_monotone bs.
+Proof. exact ltf_plan_monotone. Qed.
+Print Assumptions C04_plan_monotone.
+Theorem C04_step_monotone : forall (c : cfg RA), admissible c -> (0 < clogfact c)%R -> forall f1 f2 b1 b2, (0 < f1)%R -> (f1 <= f2)%R ->
+  ltf_step RA sqrt_oracle c f1 = Some b1 -> ltf_step RA sqrt_oracle c f2 = Some b2 -> (bL b2 <= bL b1)%Z /\ (bK b1 <= bK b2)%Z.
+Proof. exact ltf_step_monotone. Qed.
 
 (* K is the nearest integer to 1+(N-L)/((1-olap)L), or the cap N-L+1 (round-half-up and half-even variants) *)
 Theorem C04_K_nearest_iterative : forall (c : cfg RA) l, let k := capK RA c l (nseg_raw RA (rhuZ RA) c l) in
